@@ -30,6 +30,15 @@ class Module:
         self.tree = ast.parse(source, filename=path)
         if name in CANONICALISE:
             canonicalise_locals(self.tree)
+        self.normal_log = {}
+        if os.environ.get("TPMSA_NO_NORMALISE") != "1":
+            from . import normalise
+            try:
+                self.normal_log = normalise.normalise(self.tree, name)
+            except RecursionError as e:  # pragma: no cover
+                raise AnalysisError(f"normaliser failed on {relpath}: {e}")
+            if name in CANONICALISE and any(self.normal_log.values()):
+                canonicalise_locals(self.tree)
         for node in ast.walk(self.tree):
             for child in ast.iter_child_nodes(node):
                 child._parent = node
